@@ -1,7 +1,7 @@
 (* C13 -- data channel lifecycle: faithful open, forward-only states.
-   Property theorems only; proofs in Proof/ChanDcepP.v and Proof/ChanP.v. *)
+   Property theorems only; proofs in Proof/ChanDcepP.v, Proof/ChanP.v and Proof/ChanBufP.v. *)
 From Coq Require Import ZArith List Bool.
-From AV Require Import Lib.Bytes Gen.SctpConst Model.Chan Proof.ChanDcepP Proof.ChanP.
+From AV Require Import Lib.Bytes Gen.SctpConst Model.Chan Proof.ChanDcepP Proof.ChanP Proof.ChanBufP.
 Import ListNotations.
 Local Open Scope Z_scope.
 
@@ -58,10 +58,63 @@ Proof.
 Qed.
 Print Assumptions C13_step_events.
 
-(* PARTIAL (not yet theorems; observed by the correspondence and the two-endpoint
-   oracle): exact bufferedAmount accounting, id parity / freshness, "association end
-   closes every channel", and the close protocol across two endpoints (the latter is
-   refuted on the real code by known findings K4, K9, K10). *)
+(* 4. bufferedAmount.  For EVERY list of well-formed inputs (send() only uses the four
+   user PPIDs, a negotiated channel has an id -- both enforced by RTCDataChannel) and
+   every channel that is not closed: bufferedAmount equals the total size of the user
+   messages of that channel accepted by send() and still in _data_channel_queue, i.e.
+   not yet handed to the transport by _data_channel_flush (whatever the congestion
+   oracle made the flush loop do); hence it is never negative and is zero whenever
+   the queue is drained. *)
+Theorem C13_buffered_amount : forall role seq is, Forall wf_input is ->
+  let s := fst (run (init role seq) is) in
+  forall h, (h < length (chans s))%nat -> ch_state (getc s h) <> Closed ->
+    ch_buf (getc s h) = qsum (queue s) h /\ 0 <= ch_buf (getc s h) /\ (queue s = [] -> ch_buf (getc s h) = 0).
+Proof. exact buffered_amount. Qed.
+Print Assumptions C13_buffered_amount.
+
+(* bufferedamountlow is emitted by _addBufferedAmount exactly on a downward crossing *)
+Theorem C13_low_on_crossing : forall s h a,
+  snd (add_buffered s h a) =
+  if (ch_thr (getc s h) <? ch_buf (getc s h)) && (ch_buf (getc s h) + a <=? ch_thr (getc s h)) then [EvLow h] else [].
+Proof. reflexivity. Qed.
+Print Assumptions C13_low_on_crossing.
+
+(* 5. When the association ends every channel closes -- registered or still waiting for
+   a stream id, whatever happened before -- and nothing stays registered or queued. *)
+Theorem C13_assoc_end_closes_all : forall role seq is, Forall wf_input is ->
+  let s := fst (run (init role seq) (is ++ [IAssocClosed])) in
+  (forall h, (h < length (chans s))%nat -> ch_state (getc s h) = Closed) /\ table s = [] /\ queue s = [].
+Proof. exact assoc_end_closes_all. Qed.
+Print Assumptions C13_assoc_end_closes_all.
+
+(* 6. Ids.  The id chosen for a channel without one is not in use, has the parity of
+   the endpoint's DTLS role and is not below it; at every moment of every run the
+   live channels that have an id have pairwise distinct ids (so out-of-band
+   negotiated channels and received OPENs can never alias a live channel), and
+   closing never raises KeyError (EvRaise 3) on the registration table. *)
+Theorem C13_auto_id_fresh : forall t i,
+  let k := pick_id (S (length t)) t i in tget t k = None /\ (k - i) mod 2 = 0 /\ i <= k.
+Proof. exact auto_id_fresh. Qed.
+Print Assumptions C13_auto_id_fresh.
+
+Theorem C13_live_ids_distinct : forall role seq is, Forall wf_input is ->
+  let s := fst (run (init role seq) is) in
+  forall h1 h2 i, (h1 < length (chans s))%nat -> (h2 < length (chans s))%nat ->
+    ch_state (getc s h1) <> Closed -> ch_state (getc s h2) <> Closed ->
+    ch_id (getc s h1) = Some i -> ch_id (getc s h2) = Some i -> h1 = h2.
+Proof. exact live_ids_distinct. Qed.
+Print Assumptions C13_live_ids_distinct.
+
+Theorem C13_never_keyerror : forall role seq is, Forall wf_input is ->
+  Forall (fun evs => ~ In (EvRaise 3) evs) (snd (run (init role seq) is)).
+Proof. exact never_keyerror. Qed.
+Print Assumptions C13_never_keyerror.
+
+(* PARTIAL (not theorems; observed by the correspondence and the two-endpoint oracle):
+   "exactly one datachannel event on the other side", ids of the TWO sides never
+   collide (needs both endpoints: the model is one endpoint; parity per role is
+   theorem 6) and the close protocol across two endpoints (refuted on the real code
+   by known findings K4, K9, K10). *)
 
 (* non-vacuity: create, establish, flush (id 1 assigned, OPEN sent), ACK received,
    close, reset response: the channel walks connecting -> open -> closing -> closed *)
@@ -72,3 +125,14 @@ Example C13_example :
   map (fun e => (opens 0 e, closes 0 e)) evs = [(0, 0); (0, 0); (0, 0); (1, 0); (0, 0); (0, 0); (0, 1)]%nat /\
   rk s 0 = 3 /\ table s = [].
 Proof. vm_compute. repeat split. Qed.
+
+(* non-vacuity of theorem 4: two sends while the association is congested leave
+   bufferedAmount = 5 with both messages queued; a flush drains it to 0 *)
+Example C13_buffered_example :
+  let ins := [ICreate false None true None None [104] []; IEstablished; IFlush [false; false];
+              IRecv 1 WEBRTC_DCEP [DATA_CHANNEL_ACK] true []; ISend 0 WEBRTC_BINARY [1; 2; 3]; ISend 0 WEBRTC_BINARY [4; 5]] in
+  Forall wf_input (ins ++ [IFlush [false; false; false]]) /\
+  ch_buf (getc (fst (run (init 1 100) ins)) 0) = 5 /\
+  ch_buf (getc (fst (run (init 1 100) (ins ++ [IFlush [false; false; false]]))) 0) = 0.
+Proof. split; [repeat constructor; cbn; discriminate|vm_compute; split; reflexivity]. Qed.
+
